@@ -225,31 +225,46 @@ example : ∃ r b, mergeF 3 (.comp {} .dict [(.str "a", .comp {} (.call "f") [(.
 
 /- "no ordering or shape of safe stages before or after makes an unsafe dynamic node run", for `!append` and
    `!extend` (both branches of each: with a destination list in the accumulated tree, and without —
-   `ConfigList(self)`): the node that takes the operator's place consists of the destination's old children
-   followed by the operator's elements, and if those elements were unsafe throughout (what the loader
-   guarantees for an operator that is `!unsafe`, below an `!unsafe` node or read from an unsafe source:
-   `C07_construct_unsafe_below`, `C07_construct_unsafe_source`) they are unsafe throughout in the result —
-   under the destination's flags as well as under the fresh list's. -/
+   `ConfigList(self)._replace_other(self)`): the node that takes the operator's place consists of the
+   destination's old children followed by the operator's elements, and if those elements were unsafe throughout
+   (what the loader guarantees for an operator that is `!unsafe`, below an `!unsafe` node or read from an unsafe
+   source: `C07_construct_unsafe_below`, `C07_construct_unsafe_source`) they are unsafe throughout in the result
+   — under the destination's flags as well as under the new list's.  Without destination the new list itself
+   carries the operator's explicit `safe=False` and the flag of its source (repair "the plain list stands for
+   this node"): if the operator node is unsafe by either, the list node is unsafe and so is everything in it. -/
 theorem C07_premerge_keeps_unsafe (fuel : Nat) (f : Flags) (k : CompKind) (cs : List (Key × Node)) (path : Path)
     (into into' : Option Node) (r : Node) (same : Bool) (hk : k = .append ∨ k = .extend)
     (hu : ∀ kv, kv ∈ cs → allUnsafe kv.2 = true)
     (h : premergeF (fuel + 1) (.comp f k cs) path into = .ok (r, same, into')) :
     ∃ rf rk old added, r = .comp rf rk (old ++ added) ∧ added.length = cs.length ∧
       (∀ a, a ∈ added → allUnsafe a.2 = true) ∧
-      ((rf = freshFlags ∧ rk = .list ∧ old = []) ∨
+      ((r = newPlainList f (cs.map (·.2)) ∧ rf = replaceOtherFlags freshFlags f ∧ rk = .list ∧ old = [] ∧
+          (f.safe = some false ∨ f.dSafe = false → eSafe r.flags = false ∧ allUnsafe r = true)) ∨
        (∃ root, into = some root ∧ (getNode root path = some (.comp rf rk old) ∨
           ∃ root', removeNode root path = some (.comp rf rk old, root')))) := by
   obtain ⟨_, rf, rk, old, added, hr, _, hc, hcase⟩ := premergeF_op_shape hk h
-  exact ⟨rf, rk, old, added, hr, contributed_length hc, contributed_allUnsafe hc hu, hcase⟩
+  refine ⟨rf, rk, old, added, hr, contributed_length hc, contributed_allUnsafe hc hu, ?_⟩
+  rcases hcase with ⟨e1, e2, e3, e4⟩ | hd
+  · refine .inl ⟨e1, e2, e3, e4, fun hm => ?_⟩
+    have hrf : eSafe rf = false := by
+      rw [e2, C07_replaceOther_conj]
+      rcases hm with hm | hm <;> simp [hm]
+    subst e4
+    refine ⟨by rw [hr]; exact hrf, ?_⟩
+    rw [hr]
+    simp only [allUnsafe]
+    rw [allN_comp]
+    exact ⟨by simp [isUnsafeF, hrf], rfl, (allL_iff _).2 (fun a ha => contributed_allUnsafe hc hu a (by simpa using ha))⟩
+  · exact .inr hd
 
 /-- the operator of the seeded regression after the loader: `!extend{{safe: False}} [!call:f {}]` -/
 def c07pExtend : Node :=
   .comp { safe := some false } .extend [(.int 0, .comp { del := some true, iDel := some true, iSafe := some false } (.call "f") [])]
 
 example : construct {} (.seq .extend { safe := some false } [.map (.call "f") {} []]) = .ok c07pExtend := rfl
-/- without destination (first stage / new path) and with one -/
+/- without destination (first stage / new path: the list takes over the mark) and with one -/
 example : premergeF 3 c07pExtend [.str "steps"] none =
-    .ok (.comp {} .list [(.int 0, .comp { del := some true, iDel := some true, iSafe := some false } (.call "f") [])], false, none) := rfl
+    .ok (.comp { safe := some false } .list [(.int 0, .comp { del := some true, iDel := some true, iSafe := some false } (.call "f") [])], false, none) := rfl
 example : premergeF 3 c07pExtend [.str "steps"] (some (.comp {} .dict [(.str "steps", .comp {} .list [(.int 0, .leaf {} (.scalar (.int 1)))])])) =
     .ok (.comp {} .list [(.int 0, .leaf {} (.scalar (.int 1))),
       (.int 1, .comp { del := some true, iDel := some true, iSafe := some false } (.call "f") [])], false,
@@ -356,7 +371,7 @@ example : (match flatten [c07pStage {} c07pS1, c07pStage c07pUEnv (.map .none {}
 /- "below an !unsafe node", for the whole build: if the ROOT of any stage — first, last or in the middle —
    carries an explicit `safe=False` (a document `!unsafe {…}`), then the root of the flattened tree carries
    it, EVERY node of the flattened tree is unsafe — also everything the safe stages before and after wrote,
-   the fresh lists of `!extend` and the nodes moved by `!prev` — and a successful evaluation executes
+   the new lists of `!extend` and the nodes moved by `!prev` — and a successful evaluation executes
    nothing at all.  Any documents (every tag and operator), any order. -/
 theorem C07_unsafe_root_poisons_build (stages : List Node)
     (hs : ∀ s, s ∈ stages → ∃ env raw, construct env raw = .ok s)
@@ -501,41 +516,87 @@ example : (match flatten c07pFoldStages with
     | .ok r => (match evaluate c07ExWorld r with | .error .unsafeE => true | _ => false)
     | .error _ => false) = true := by decide +kernel
 
-/-! ### a gap: the list an `!extend` / `!append` node leaves behind is a safe node -/
+/-! ### the list an `!extend` / `!append` node leaves behind stands for the operator -/
 
-/-- `{steps: !extend []}` read from a source added with `safe=False`, and a safe `{c: !call:f {a: !xref steps}}` -/
+/-- `{steps: !extend []}` read from a source added with `safe=False`, `{steps: !extend{{safe: False}} []}` in a
+    safe source, and a safe `{c: !call:f {a: !xref steps}}` -/
 def c07pGapU : Raw := .map .none {} [(.str "steps", .seq .extend {} [])]
+def c07pGapT : Raw := .map .none {} [(.str "steps", .seq .extend { safe := some false } [])]
 def c07pGapS : Raw := .map .none {} [(.str "c", .map (.call "f") {} [(.str "a", .scalar .xref {} (.text "steps"))])]
-def c07pGapRoot : Node :=
-  .comp { dSafe := false, src := some "u.yaml" } .dict [
-    (.str "steps", .comp {} .list []),
-    (.str "c", .comp { del := some true } (.call "f") [(.str "a", .leaf { iDel := some true } (.xref "steps"))])]
 
-/- FINDING (replayed on the library: `steps: !extend []` from a source added with `safe=False`, or tagged
-   `!extend{{'safe': False}} []`, then `c: !call:probe {a: !xref steps}` → `probe(a=[])`): "no value originating from unsafe content is
-   ever passed to a call" does not hold for the LIST NODE an `!extend` / `!append` operator leaves behind when
-   there is no destination: `ConfigList(self)` is created while flattening, outside every `add_source`, with
-   fresh flags — neither the operator's own `safe=False`, nor the flag of its unsafe source is copied — and it
-   is adopted by a parent that (for a source-level flag) hands nothing down.  The operator's ELEMENTS stay
-   unsafe (`C07_premerge_keeps_unsafe`), so the only value that escapes is the list itself when the elements
-   do not taint it: an EMPTY list.  Here a document read with `safe=False` decides that the safe call `c`
-   receives `[]`; written as a plain `steps: []` the same build fails with UnsafeError. -/
-theorem C07_fresh_list_counterexample :
-    (∃ u, construct c07pUEnv c07pGapU = .ok u ∧ allUnsafe u = true ∧
-      ∃ s, construct {} c07pGapS = .ok s ∧ flatten [u, s] = .ok c07pGapRoot) ∧
-    (getNode c07pGapRoot [.str "steps"]).map (fun n => eSafe n.flags) = some true ∧
-    ∃ v st, evaluate c07ExWorld c07pGapRoot = .ok (v, st) ∧
-      st.log.map (·.what) = ["call:f"] ∧
-      plookup [.str "c"] st.cache = some (.app [.str "c"] "f" [("a", .list [.str "steps"] [])] [] []) ∧
-      [Key.str "steps"] ∉ st.tainted := by
-  refine ⟨⟨_, rfl, by decide, _, rfl, by rfl⟩, rfl, _, _, rfl, rfl, rfl, by decide⟩
+/- "no value originating from unsafe content is ever passed to a call", for the LIST NODE an `!extend` /
+   `!append` operator leaves behind when there is no destination (`!append`: first stage; `!extend`: first stage,
+   missing path, or a node at the path that is not a list).  History: `ConfigList(self)` was created while
+   flattening, outside every `add_source`, with fresh flags — neither the operator's own `safe=False` nor the
+   flag of its unsafe source was copied — so an EMPTY operator list written by unsafe content reached a safe
+   call as `[]` (found by this development as `C07_fresh_list_counterexample`, replayed on the library).  The
+   library was repaired (`ConfigList(self)._replace_other(self)`), the model follows (`newPlainList f`): the node
+   returned is `newPlainList f …`, its flags are `_replace_other(fresh, operator)`, the operator's explicit
+   `safe=False` and its source-level `safe=False` are on it, and then the list node is unsafe. -/
+theorem C07_operator_list_keeps_unsafety (fuel : Nat) (f : Flags) (k : CompKind) (cs : List (Key × Node)) (path : Path)
+    (into into' : Option Node) (r : Node) (same : Bool) (hk : k = .append ∨ k = .extend)
+    (hnd : ∀ root tf tk tcs, into = some root → getNode root path = some (.comp tf tk tcs) → tk.isListFam = false)
+    (hka : k = .append → into = none)
+    (h : premergeF (fuel + 1) (.comp f k cs) path into = .ok (r, same, into')) :
+    r = newPlainList f (cs.map (·.2)) ∧ r.flags = replaceOtherFlags freshFlags f ∧
+    (f.safe = some false → r.flags.safe = some false) ∧ (f.dSafe = false → r.flags.dSafe = false) ∧
+    (f.safe = some false ∨ f.dSafe = false → eSafe r.flags = false) := by
+  have hr : r = newPlainList f (cs.map (·.2)) := by
+    rcases hk with rfl | rfl
+    · rw [hka rfl] at h
+      simp only [premergeF, Except.ok.injEq, Prod.mk.injEq] at h
+      exact h.1.symm
+    · cases into with
+      | none =>
+        simp only [premergeF, Except.ok.injEq, Prod.mk.injEq] at h
+        exact h.1.symm
+      | some root =>
+        simp only [premergeF] at h
+        split at h
+        · rename_i tf tk tcs hg
+          rw [if_neg (by rw [hnd root tf tk tcs rfl hg]; simp)] at h
+          simp only [Except.ok.injEq, Prod.mk.injEq] at h
+          exact h.1.symm
+        · simp only [Except.ok.injEq, Prod.mk.injEq] at h
+          exact h.1.symm
+  have hf : r.flags = replaceOtherFlags freshFlags f := by rw [hr]; exact newPlainList_flags f _
+  refine ⟨hr, hf, fun hm => ?_, fun hm => ?_, fun hm => ?_⟩
+  · rw [hf]; exact (C07_merge_explicit_unsafe_kept freshFlags f (.inr hm)).2.1
+  · rw [hf]; simp [replaceOtherFlags, mergeSafe, hm]
+  · rw [hf, C07_replaceOther_conj]
+    rcases hm with hm | hm <;> simp [hm]
 
-/- the same document with a plain list is refused -/
-example : (match construct c07pUEnv (.map .none {} [(.str "steps", .seq .none {} [])]), construct {} c07pGapS with
+/- both forms of the former counterexample are refused now; with a safe operator the build runs -/
+example : (match construct c07pUEnv c07pGapU, construct {} c07pGapS with
     | .ok u, .ok s => (match flatten [u, s] with
-      | .ok r => (match evaluate c07ExWorld r with | .error .unsafeE => true | _ => false)
-      | .error _ => false)
-    | _, _ => false) = true := by decide +kernel
+      | .ok r => ((getNode r [.str "steps"]).map (fun n => eSafe n.flags),
+                  match evaluate c07ExWorld r with | .error .unsafeE => true | _ => false)
+      | .error _ => (none, false))
+    | _, _ => (none, false)) = (some false, true) := by decide +kernel
+example : (match construct {} c07pGapT, construct {} c07pGapS with
+    | .ok u, .ok s => (match flatten [s, u] with
+      | .ok r => ((getNode r [.str "steps"]).map (fun n => (n.flags.safe, eSafe n.flags)),
+                  match evaluate c07ExWorld r with | .error .unsafeE => true | _ => false)
+      | .error _ => (none, false))
+    | _, _ => (none, false)) = (some (some false, false), true) := by decide +kernel
+example : (match construct {} c07pGapU, construct {} c07pGapS with
+    | .ok u, .ok s => (match flatten [u, s] with
+      | .ok r => (match evaluate c07ExWorld r with | .ok (_, st) => st.log.map (·.what) | .error _ => ["error"])
+      | .error _ => ["error"])
+    | _, _ => ["error"]) = ["call:f"] := by decide +kernel
+
+/- the behaviour before the repair as a mutant of the model (`freshPlainList`: `ConfigList(self)` with bare
+   fresh flags): the list of an operator that is `!unsafe` and read from an unsafe source is a SAFE node, so
+   `C07_operator_list_keeps_unsafety` is false of it -/
+theorem C07_operator_list_mutant_counterexample :
+    eSafe (newPlainList { safe := some false, dSafe := false } []).flags = false ∧
+    eSafe (freshPlainList []).flags = true ∧
+    ∀ vals, eSafe (freshPlainList vals).flags = true :=
+  ⟨by decide, by decide, fun _ => rfl⟩
+
+example : freshPlainList [] = .comp {} .list [] ∧
+    newPlainList { safe := some false, dSafe := false } [] = .comp { safe := some false, dSafe := false } .list [] :=
+  ⟨rfl, rfl⟩
 
 /-- `{l: [1, 2], c: !call:f {a: !xref l}}` then `{l: !clear}` read with `safe=False`; and
     `{v: 7}`, `{w: !prev v}` read with `safe=False`, `{c: !call:f {a: !xref w}}` -/
@@ -548,7 +609,8 @@ def c07pGapPrevRoot : Node :=
     (.str "w", .leaf {} (.scalar (.int 7))),
     (.str "c", .comp { del := some true } (.call "f") [(.str "a", .leaf { iDel := some true } (.xref "w"))])]
 
-/- the same gap for the other two operators (both replayed on the library): the node `!clear` returns is the
+/- a remaining gap, recorded and not repaired (control of data flow by unsafe content; both replayed on the
+   library): the node `!clear` returns is the
    emptied DESTINATION with the destination's flags, the node `!prev` returns is the MOVED node with its own
    flags; the operator's flags — here the flag of its unsafe source — are dropped with the operator node, and a
    parent that is unsafe only by its source hands nothing down.  An unsafe source thus decides that the safe
